@@ -47,6 +47,33 @@ theorem C14_offset_nonneg (m : Int) : 0 ≤ fileIdIncrOf m := by
 /-- a fresh manager (`ReadExchangeFile` clears it first) reads ids unchanged -/
 theorem C14_offset_cleared : fileIdIncrOf cleared.maxId = 0 := by decide
 
+/-! ### 32-bit `int` arithmetic: where the Int model and the C code part ways
+
+`_fileIdIncr` is an `int`, computed in `double` and cast back; `IncrementFileId` and `ReadEntityRef` add it to `int` ids.
+The model uses unbounded `Int`.  The two agree exactly when every intermediate value fits `int`: -/
+
+def int32Max : Int := 2147483647
+
+/-- the offset itself fits `int` iff the manager's maximum id is at most 2147481901 (the first multiple of 1000 above
+    `max + 99`, plus 1000, must not exceed 2^31 − 1; the double arithmetic is exact far beyond that) -/
+theorem C14_offset_fits_int32 (m : Int) (h : 0 ≤ m) : fileIdIncrOf m ≤ int32Max ↔ m ≤ 2147481901 := by
+  unfold fileIdIncrOf int32Max; rw [if_neg (by omega)]; omega
+
+/-- … and at that boundary the offset is 2147483000, leaving room for appended ids up to 647 -/
+theorem C14_offset_boundary : fileIdIncrOf 2147481901 = 2147483000 ∧ fileIdIncrOf 2147481902 = 2147484000 := by decide
+
+/-- how much room an append has: the offset is at most `max + 2098`, so every id `i` of the appended file with
+    `max + 2098 + i ≤ 2^31 − 1` (and every reference, which is such an id) is shifted without overflow -/
+theorem C14_offset_le (m : Int) (h : 0 ≤ m) : fileIdIncrOf m ≤ m + 2098 := by
+  unfold fileIdIncrOf; rw [if_neg (by omega)]; omega
+
+theorem C14_shift_fits_int32 (m i : Int) (hm : 0 ≤ m) (hi : 1 ≤ i) (hroom : m + 2098 + i ≤ int32Max) :
+    1 ≤ i + fileIdIncrOf m ∧ i + fileIdIncrOf m ≤ int32Max := by
+  have := C14_offset_le m hm
+  have := C14_offset_above m hm
+  unfold int32Max at *
+  omega
+
 /-! ### one append -/
 
 theorem kept_exchange (es : List Entry) : kept .exchange es = es := by
